@@ -11,6 +11,7 @@ from typing import (
 )
 
 from pdfminer import utils
+from pdfminer.casting import safe_float
 from pdfminer.pdfcolor import PDFColorSpace
 from pdfminer.pdffont import PDFFont, PDFUnicodeNotDefined
 from pdfminer.pdfpage import PDFPage
@@ -167,7 +168,9 @@ class PDFTextDevice(PDFDevice):
         (x, y) = pos
         for obj in seq:
             if isinstance(obj, (int, float)):
-                x -= obj * dxscale
+                adjustment = safe_float(obj)
+                if adjustment is not None:
+                    x -= adjustment * dxscale
             elif isinstance(obj, bytes):
                 for cid in font.decode(obj):
                     x += self.render_char(
@@ -209,7 +212,9 @@ class PDFTextDevice(PDFDevice):
         (x, y) = pos
         for obj in seq:
             if isinstance(obj, (int, float)):
-                y -= obj * dxscale
+                adjustment = safe_float(obj)
+                if adjustment is not None:
+                    y -= adjustment * dxscale
             elif isinstance(obj, bytes):
                 for cid in font.decode(obj):
                     y += self.render_char(
